@@ -228,6 +228,144 @@ def gen_inputs(rng, g, n):
     return out
 
 
+# ------------------------------------------------------------------ histories of constructor calls
+# how the productions object of a call is obtained from the object of the previous call of the same history
+#   fresh    a new dict with new lists (the earlier objects stay alive)
+#   same     the SAME dict object, emptied and refilled (new lists)
+#   inner    the same dict object AND, for the symbols that stay, the same list objects (edited by slice assignment)
+#   shallow  a new dict whose values are the list objects of the previous dict (edited by slice assignment)
+#   reuse    every reference to the previous dict is dropped first, then a new one is built (CPython usually hands
+#            out the same address again: id() of the new object = id() of the dead one)
+#   again    the very same object, untouched
+HIST_MODES = (("fresh", 0.18), ("same", 0.30), ("inner", 0.25), ("shallow", 0.10), ("reuse", 0.17))
+
+
+def _copy_prods(prods):
+    return [[nt, [list(a) for a in alts]] for nt, alts in prods]
+
+
+def _valid_prods(prods, start):
+    keys = [nt for nt, _ in prods]
+    return (len(set(keys)) == len(keys) and start in keys
+            and all(alts and len(set(map(tuple, alts))) == len(alts) for _nt, alts in prods))
+
+
+def _edit(rng, prods, terms, start):
+    """one small random edit of the grammar -> (prods, start, what) (possibly not valid: the caller checks)"""
+    p = _copy_prods(prods)
+    keys = [nt for nt, _ in p]
+    alts_of = {nt: alts for nt, alts in p}
+    nul = sorted(L.ref_nullable(alts_of))
+    what = rng.choice(["add_rec", "add_rec", "del_alt", "guard", "unguard", "unguard", "toggle_eps", "swap_sym",
+                       "rename", "new_sym", "drop_sym", "reorder"])
+    if what == "add_rec":
+        x = rng.choice(keys)
+        y = x if rng.random() < 0.4 else rng.choice(keys)
+        pre = [rng.choice(nul) for _ in range(rng.randint(0, 2))] if nul else []
+        post = [rng.choice(terms + keys) for _ in range(rng.randint(0, 1))]
+        alts_of[x].insert(rng.randint(0, len(alts_of[x])), pre + [y] + post)
+    elif what == "del_alt":
+        x = rng.choice(keys)
+        if len(alts_of[x]) > 1:
+            del alts_of[x][rng.randrange(len(alts_of[x]))]
+    elif what == "guard":
+        a = rng.choice(alts_of[rng.choice(keys)])
+        a.insert(rng.randint(0, min(len(a), 2)), rng.choice(terms))
+    elif what == "unguard":
+        cands = [(a, i) for alts in alts_of.values() for a in alts for i, sy in enumerate(a[:3]) if sy in terms]
+        if cands:
+            a, i = rng.choice(cands)
+            del a[i]
+    elif what == "toggle_eps":
+        x = rng.choice(keys)
+        if [] in alts_of[x]:
+            alts_of[x].remove([])
+        else:
+            alts_of[x].insert(rng.randint(0, len(alts_of[x])), [])
+    elif what == "swap_sym":
+        cands = [a for alts in alts_of.values() for a in alts if a]
+        if cands:
+            a = rng.choice(cands)
+            a[rng.randrange(min(len(a), 3))] = rng.choice(terms + keys)
+    elif what == "rename":
+        new = list(keys)
+        rng.shuffle(new)
+        if rng.random() < 0.3:          # one name from outside
+            free = [n for n in NAME_POOL if n not in keys]
+            new[rng.randrange(len(new))] = rng.choice(free)
+        ren = dict(zip(keys, new))
+        p = [[ren[nt], [[ren.get(sy, sy) for sy in a] for a in alts]] for nt, alts in p]
+        start = ren[start]
+    elif what == "new_sym":
+        free = [n for n in NAME_POOL if n not in keys]
+        n = rng.choice(free)
+        t = rng.choice(terms)
+        p.insert(rng.randint(0, len(p)), [n, rng.choice([[[]], [[t]], [[], [t]], [[t], []]])])
+        a = rng.choice(alts_of[rng.choice(keys)])
+        a.insert(rng.randint(0, min(len(a), 1)), n)
+    elif what == "drop_sym":
+        cands = [k for k in keys if k != start]
+        if cands:
+            k = rng.choice(cands)
+            p = [[nt, [[sy for sy in a if sy != k] for a in alts]] for nt, alts in p if nt != k]
+    else:
+        if rng.random() < 0.5:
+            rng.shuffle(p)
+        else:
+            rng.shuffle(alts_of[rng.choice(keys)])
+    return p, start, what
+
+
+def gen_history(rng, n_inputs=3):
+    """constructor calls on related grammars: a grammar, small edits of it (biased towards edits that add or remove
+    a zero-token cycle), name permutations, earlier versions again; the productions object of a call is related
+    to the object of the call before as its mode says"""
+    while True:
+        g0 = gen_hidden(rng) if rng.random() < 0.8 else L.gen_grammar(rng, n_nt=rng.randint(2, 4), allow_leftrec=0.25)
+        if _valid_prods(g0["prods"], g0["start"]):
+            break
+    terms = list(g0["terms"])
+    versions = [(_copy_prods(g0["prods"]), g0["start"])]
+    cur = versions[0]
+    smart = g0["smart"]
+    steps = []
+    for i in range(rng.randint(3, 7)):
+        mode = "fresh"
+        if i > 0:
+            r = rng.random()
+            if r < 0.10:
+                mode = "again"
+            else:
+                if r < 0.30 and len(versions) > 1:
+                    cur = rng.choice([v for v in versions if v is not cur])
+                else:
+                    was = L.ref_left_recursive(_prods_dict(cur[0]))
+                    want_flip = rng.random() < 0.65
+                    for _ in range(40):
+                        p2, s2, _what = _edit(rng, cur[0], terms, cur[1])
+                        if (_valid_prods(p2, s2) and p2 != cur[0]
+                                and (not want_flip or L.ref_left_recursive(_prods_dict(p2)) != was)):
+                            cur = (p2, s2)
+                            versions.append(cur)
+                            break
+                x, acc = rng.random(), 0.0
+                for m, w in HIST_MODES:
+                    acc += w
+                    if x < acc:
+                        mode = m
+                        break
+        prods, start = cur
+        if mode != "again":
+            if rng.random() < 0.12:
+                start = rng.choice([nt for nt, _ in prods])
+            if rng.random() < 0.10:
+                smart = not smart
+        g = {"terms": terms, "prods": prods, "start": start}
+        steps.append({"mode": mode, "prods": _copy_prods(prods), "start": start, "smart": smart,
+                      "inputs": gen_inputs(rng, g, n_inputs)})
+    return {"k": "hist", "terms": terms, "steps": steps}
+
+
 def _full_case(rng, g, n_inputs):
     return {"k": "full", "g": g, "inputs": gen_inputs(rng, g, n_inputs)}
 
@@ -250,6 +388,9 @@ def gen_cases(rng, tier):
         cases.append(_full_case(rng, gen_hidden(rng), 8))
     for _ in range(2000 if big else 150):
         cases.append(_full_case(rng, L.gen_grammar(rng, allow_leftrec=0.25), 8))
+    # (3) histories of constructor calls in one process
+    for _ in range(2500 if big else 220):
+        cases.append(gen_history(rng))
     # the implementation runner cuts the case list into consecutive shards: spread the (expensive) sweep chunks
     rng.shuffle(cases)
     return cases
@@ -263,6 +404,8 @@ def search_cases(rng, tier):
             cases.append({"k": "sweep", "cls": cname, "idx": sorted(rng.randrange(cls.size) for _ in range(4000))})
     for _ in range(1500):
         cases.append(_full_case(rng, gen_hidden(rng), 6))
+    for _ in range(1500):
+        cases.append(gen_history(rng, 2))
     return cases
 
 
@@ -311,8 +454,68 @@ def _timed_parse(p, llparser, text, budget):
     return "err", "Hang"
 
 
-def _ctor(llparser, terms, prods, start, smart):
-    pd = {nt: [tuple(a) if a else None for a in alts] for nt, alts in prods}
+def _mk_pd(prods):
+    return {nt: [tuple(a) if a else None for a in alts] for nt, alts in prods}
+
+
+class _Objects:
+    """the productions objects of the constructor calls made so far in one history"""
+
+    def __init__(self):
+        self.pd = None
+        self.alive = []        # earlier objects that the 'user' still holds
+        self.reused = 0        # how often a re-created dict got the address of the dropped one
+
+    def next(self, mode, prods):
+        """-> the object to pass to the constructor; its contents are those of prods, in that order"""
+        old = self.pd
+        if old is None or mode == "fresh":
+            if old is not None:
+                self.alive.append(old)
+            self.pd = _mk_pd(prods)
+        elif mode == "again":
+            pass
+        elif mode == "same":
+            new = _mk_pd(prods)
+            old.clear()
+            old.update(new)
+        elif mode in ("inner", "shallow"):
+            lists = dict(old)
+            if mode == "inner":
+                tgt = old
+                old.clear()
+            else:
+                tgt = {}
+                self.alive.append(old)
+            for k, alts in _mk_pd(prods).items():
+                lst = lists.get(k)
+                if lst is None:
+                    lst = alts
+                else:
+                    lst[:] = alts
+                tgt[k] = lst
+            self.pd = tgt
+        elif mode == "reuse":
+            want = id(old)
+            self.pd = old = lists = None
+            held = []
+            for _ in range(30):
+                cand = _mk_pd(prods)
+                if id(cand) == want:
+                    self.reused += 1
+                    break
+                held.append(cand)
+            else:
+                cand = held.pop()
+            self.pd = cand
+        else:
+            raise ValueError(mode)
+        if [[nt, [list(a) if a else [] for a in alts]] for nt, alts in self.pd.items()] != [[nt, [list(a) for a in alts]] for nt, alts in prods]:
+            raise RuntimeError("harness error: the productions object does not have the contents of the case")
+        return self.pd
+
+
+def _ctor_pd(llparser, terms, pd, start, smart):
     signal.setitimer(signal.ITIMER_REAL, CTOR_BUDGET)
     try:
         try:
@@ -326,37 +529,100 @@ def _ctor(llparser, terms, prods, start, smart):
         return None, SX.exc_name(e)
 
 
+def _ctor(llparser, terms, prods, start, smart):
+    return _ctor_pd(llparser, terms, _mk_pd(prods), start, smart)
+
+
+def sweep_mode(idx):
+    """how the productions object of the grammar with this index is related to the object of the grammar that was
+    constructed before it in the same chunk (all grammars of a class use the same symbol names)"""
+    h = ((idx * 2654435761 + 977) >> 7) % 16
+    return ("fresh", "fresh", "fresh", "fresh", "fresh", "fresh", "fresh", "same", "same", "same", "same",
+            "inner", "inner", "inner", "shallow", "reuse")[h]
+
+
+def _parse_all(p, llparser, inputs, budget, hangs_left):
+    """-> (results, number of hangs); after a hang the remaining inputs are not run"""
+    res, hung = [], 0
+    for inp in inputs:
+        if hung or hangs_left <= 0:
+            res.append(["err", "NotRun"])
+            continue
+        r = _timed_parse(p, llparser, " ".join(v for _, v in inp), budget)
+        if r[0] == "ok":
+            res.append(["ok", L.tree_obs(r[1])])
+        else:
+            res.append(["err", r[1]])
+            hung += r[1] == "Hang"
+    return res, hung
+
+
+def _run_history(case, llparser):
+    objs = _Objects()
+    steps, parsers, hangs_left = [], [], MAX_HANGS
+    for st in case["steps"]:
+        # (no local name for the object: a 'reuse' step needs the previous object to be really dead)
+        p, err = _ctor_pd(llparser, case["terms"], objs.next(st["mode"], st["prods"]), st["start"], st["smart"])
+        parsers.append(p)
+        if p is None:
+            steps.append({"ctor": ["err", err]})
+            continue
+        res, hung = _parse_all(p, llparser, st["inputs"], PARSE_BUDGET_FULL, hangs_left)
+        hangs_left -= hung
+        steps.append({"ctor": ["ok"], "amb": bool(p.is_ambiguous()), "res": res})
+    # every accepted parser once more, after all the other constructor calls (and after the edits of the objects)
+    late = []
+    for st, p in zip(case["steps"], parsers):
+        if p is None:
+            late.append([])
+            continue
+        res, hung = _parse_all(p, llparser, st["inputs"], PARSE_BUDGET_FULL, hangs_left)
+        hangs_left -= hung
+        late.append(res)
+    return {"steps": steps, "late": late, "reused": objs.reused}
+
+
 def impl_run(case):
     from ak import llparser
+    if case["k"] == "hist":
+        return _run_history(case, llparser)
     if case["k"] == "sweep":
         cls = CLASSES[case["cls"]]
         out, ref, hangs, n_parsed, n_trees, ctor_hangs = [], [], [], 0, 0, 0
+        objs = _Objects()
+        prev = None           # the parser accepted last, parsed with once more after later constructor calls
+
+        def parse_inputs(p, idx, late):
+            nonlocal n_parsed, n_trees
+            for inp in cls.inputs:
+                r = _timed_parse(p, llparser, " ".join(inp), PARSE_BUDGET)
+                n_parsed += 1
+                if r[0] == "ok":
+                    n_trees += 1
+                elif r[1] != "ParsingError":
+                    hangs.append({"idx": idx, "inp": inp, "err": r[1], "late": late})
+                    return
+
         for idx in _chunk_indices(case):
             prods, start, smart = cls.grammar(idx)
             ref.append("1" if L.ref_left_recursive(_prods_dict(prods)) else "0")
             if ctor_hangs >= MAX_HANGS:
                 out.append("?")          # not run: the constructor hung MAX_HANGS times in this chunk already
                 continue
-            p, err = _ctor(llparser, cls.terms, prods, start, smart)
+            p, err = _ctor_pd(llparser, cls.terms, objs.next(sweep_mode(idx), prods), start, smart)
+            if prev is not None and idx % 4 == 0 and len(hangs) < MAX_HANGS:
+                parse_inputs(prev[0], prev[1], idx)
             if p is None:
                 out.append("R" if err == "GrammarIsRecursive" else "H" if err == "Hang" else "E")
                 ctor_hangs += err == "Hang"
                 continue
             out.append(".")
+            prev = (p, idx)
             if len(hangs) >= MAX_HANGS:
                 continue
-            for inp in cls.inputs:
-                r = _timed_parse(p, llparser, " ".join(inp), PARSE_BUDGET)
-                n_parsed += 1
-                if r[0] == "ok":
-                    n_trees += 1
-                elif r[1] == "Hang":
-                    hangs.append([idx, inp])
-                    break
-                elif r[1] != "ParsingError":
-                    hangs.append([idx, inp, r[1]])
-                    break
-        return {"out": "".join(out), "ref": "".join(ref), "hangs": hangs, "parsed": n_parsed, "trees": n_trees}
+            parse_inputs(p, idx, None)
+        return {"out": "".join(out), "ref": "".join(ref), "hangs": hangs, "parsed": n_parsed, "trees": n_trees,
+                "reused": objs.reused}
     g = case["g"]
     p, err = _ctor(llparser, g["terms"], g["prods"], g["start"], g["smart"])
     if p is None:
@@ -392,6 +658,14 @@ def coq_case(case, obs):
             prods, start, smart = cls.grammar(idxs[pos])
             items.append(f"({_coq_ug(prods)}, {SX.cbool(smart)}, {L.coq_sym(start)})")
         return f"Ctors {SX.clist(L.coq_sym(t) for t in cls.terms)} {SX.clist(items)}"
+    if case["k"] == "hist":
+        calls = []
+        for st in case["steps"]:
+            inputs = SX.clist(
+                (SX.clist("(" + L.coq_sym(n) + ", " + SX.cstr(v) + ")" for n, v in inp) if inp else "(@nil (list Z * list Z))")
+                for inp in st["inputs"]) if st["inputs"] else "(@nil (list (list Z * list Z)))"
+            calls.append(f"({_coq_ug(st['prods'])}, {SX.cbool(st['smart'])}, {L.coq_sym(st['start'])}, {inputs})")
+        return f"Session {SX.clist(L.coq_sym(t) for t in case['terms'])} {L.FUEL}%nat {SX.clist(calls)}"
     return L.coq_case(case, obs)
 
 
@@ -402,9 +676,21 @@ def expected_sx(case, obs):
     if "__hang__" in obs:        # the worker died / the whole case blew IMPL_TIMEOUT
         if case["k"] == "sweep":
             return SX.dumps([SX.ERR_CODES["Hang"] for _ in _model_sample(case)])
+        if case["k"] == "hist":
+            return SX.dumps([[SX.err("Hang") + [True] for _ in case["steps"]], [[] for _ in case["steps"]]])
         return SX.dumps(SX.err("Hang") + [True])
     if case["k"] == "sweep":
         return SX.dumps([_OUT_CODE[obs["out"][pos]] for pos in _model_sample(case)])
+    if case["k"] == "hist":
+        def results(rs):
+            return [SX.ok(L.tree_sx(r[1])) if r[0] == "ok" else SX.err(r[1]) for r in rs]
+        calls = []
+        for o in obs["steps"]:
+            if o["ctor"][0] == "err":
+                calls.append(SX.err(o["ctor"][1]) + [True])
+            else:
+                calls.append([0, o["amb"], True, results(o["res"])])
+        return SX.dumps([calls, [results(rs) for rs in obs["late"]]])
     # the third field is the model's evaluation of the theorems' hypotheses (part1_okb) on the factorized
     # grammar: expected to hold on every generated grammar
     if obs["ctor"][0] == "err":
@@ -417,7 +703,8 @@ def expected_sx(case, obs):
 
 # ------------------------------------------------------------------ oracle (the statement, independently of the model)
 STATS = {"swept": 0, "swept_leftrec": 0, "swept_accepted": 0, "swept_parses": 0, "swept_trees": 0,
-         "full_leftrec": 0, "full_hidden": 0, "full_accepted": 0}
+         "full_leftrec": 0, "full_hidden": 0, "full_accepted": 0,
+         "sweep_reused_ids": 0, "hist": 0, "hist_calls": 0, "hist_flips_shared_object": 0, "hist_reused_ids": 0}
 
 
 def oracle(case, obs):
@@ -433,6 +720,7 @@ def oracle(case, obs):
         STATS["swept_accepted"] += o.count(".")
         STATS["swept_parses"] += obs["parsed"]
         STATS["swept_trees"] += obs["trees"]
+        STATS["sweep_reused_ids"] += obs.get("reused", 0)
         # the reference was evaluated beside the implementation (in the worker); re-evaluate a sample of it here
         for pos in _model_sample(case):
             prods, _s, _m = cls.grammar(idxs[pos])
@@ -444,6 +732,10 @@ def oracle(case, obs):
                 if w != got and got != "?":
                     prods, start, smart = cls.grammar(idxs[pos])
                     desc = f"class {cls.name} index {idxs[pos]}: productions {prods} start {start} smart={smart}"
+                    mode = sweep_mode(idxs[pos])
+                    if mode != "fresh" and pos > 0:
+                        desc += (f" (productions object: '{mode}' with respect to the object of the call before, which "
+                                 f"held {cls.grammar(idxs[pos - 1])[0]}, outcome '{o[pos - 1]}')")
                     if w == "R" and got == ".":
                         out.append(("leftrec-accepted", desc + ": left-recursive, but the constructor accepted it"))
                     elif w == "." and got == "R":
@@ -457,12 +749,16 @@ def oracle(case, obs):
                     if len(out) >= 3:
                         break
         for h in obs["hangs"]:
-            prods, start, smart = cls.grammar(h[0])
-            what = "did not return" if len(h) == 2 else f"raised {h[2]}"
-            sig = "parse-hang" if len(h) == 2 else "parse-error-type"
-            out.append((sig, f"class {cls.name} index {h[0]}: productions {prods} start {start} smart={smart}: "
-                             f"accepted, but parse of {' '.join(h[1])!r} {what}"))
+            prods, start, smart = cls.grammar(h["idx"])
+            what = "did not return" if h["err"] == "Hang" else f"raised {h['err']}"
+            if h["late"] is not None:
+                what += f" (parse made after the later constructor calls up to index {h['late']})"
+            sig = "parse-hang" if h["err"] == "Hang" else "parse-error-type"
+            out.append((sig, f"class {cls.name} index {h['idx']}: productions {prods} start {start} smart={smart}: "
+                             f"accepted, but parse of {' '.join(h['inp'])!r} {what}"))
         return out[:4]
+    if case["k"] == "hist":
+        return _oracle_history(case, obs)
     g = case["g"]
     prods = _prods_dict(g["prods"])
     rec = L.ref_left_recursive(prods)
@@ -492,6 +788,39 @@ def oracle(case, obs):
     return out[:3]
 
 
+def _oracle_history(case, obs):
+    """every call of the history is judged on the contents of ITS productions at the time of the call"""
+    out = []
+    recs = [L.ref_left_recursive(_prods_dict(st["prods"])) for st in case["steps"]]
+    STATS["hist"] += 1
+    STATS["hist_calls"] += len(recs)
+    STATS["hist_reused_ids"] += obs.get("reused", 0)
+    for k, (st, o, rec) in enumerate(zip(case["steps"], obs["steps"], recs)):
+        before = ", ".join(f"{j}:{s2['mode']}:{'leftrec' if recs[j] else 'ok'}" for j, s2 in enumerate(case["steps"][:k]))
+        desc = (f"call {k} of a history (object: '{st['mode']}'; calls before: [{before}]): productions {st['prods']} "
+                f"start {st['start']} smart={st['smart']}")
+        if k and st["mode"] != "fresh" and rec != recs[k - 1]:
+            STATS["hist_flips_shared_object"] += 1
+        if o["ctor"][0] == "ok":
+            if rec:
+                out.append(("leftrec-accepted", desc + ": left-recursive, but the constructor accepted it"))
+            for when, rs in (("", o["res"]), (" after the later calls of the history", obs["late"][k])):
+                for inp, r in zip(st["inputs"], rs):
+                    text = " ".join(v for _, v in inp)
+                    if r == ["err", "Hang"]:
+                        out.append(("parse-hang", desc + f": accepted, but parse of {text!r}{when} did not return"))
+                    elif r[0] == "err" and r[1] not in ("ParsingError", "NotRun"):
+                        out.append(("parse-error-type", desc + f": parse of {text!r}{when} raised {r[1]}"))
+        elif o["ctor"][1] == "GrammarIsRecursive":
+            if not rec:
+                out.append(("spurious-recursive", desc + ": not left-recursive, but GrammarIsRecursive was raised"))
+        elif o["ctor"][1] == "Hang":
+            out.append(("ctor-hang", desc + ": the constructor did not return"))
+        elif rec:
+            out.append(("leftrec-other-error", desc + f": left-recursive, but the constructor raised {o['ctor'][1]}"))
+    return out[:4]
+
+
 def extra_coverage():
     return {"c03_counts": dict(STATS)}
 
@@ -499,6 +828,10 @@ def extra_coverage():
 def kind(case):
     if case["k"] == "sweep":
         return "sweep:" + case["cls"]
+    if case["k"] == "hist":
+        recs = [L.ref_left_recursive(_prods_dict(st["prods"])) for st in case["steps"]]
+        flips = sum(1 for k in range(1, len(recs)) if recs[k] != recs[k - 1] and case["steps"][k]["mode"] != "fresh")
+        return f"hist:flips-on-related-object={min(flips, 3)}{'+' if flips > 3 else ''}"
     prods = _prods_dict(case["g"]["prods"])
     rec = L.ref_left_recursive(prods)
     return f"full:leftrec={int(rec)} hidden={int(rec and ref_hidden_only(prods))} nullable={int(bool(L.ref_nullable(prods)))}"
@@ -509,6 +842,12 @@ def nontrivial(case, obs):
         return False
     if case["k"] == "sweep":
         return "R" in obs["out"] and "." in obs["out"] and obs["trees"] > 0
+    if case["k"] == "hist":
+        # a call on an object related to the previous one whose verdict must differ from the previous call's,
+        # and an accepted grammar of which an input was parsed to a tree
+        recs = [L.ref_left_recursive(_prods_dict(st["prods"])) for st in case["steps"]]
+        return (any(recs[k] != recs[k - 1] and case["steps"][k]["mode"] != "fresh" for k in range(1, len(recs)))
+                and any(o["ctor"][0] == "ok" and any(r[0] == "ok" for r in o["res"]) for o in obs["steps"]))
     prods = _prods_dict(case["g"]["prods"])
     if obs["ctor"][0] != "ok":
         return ref_hidden_only(prods)
@@ -520,6 +859,9 @@ def outcome(case, obs):
         return "hang"
     if case["k"] == "sweep":
         return "sweep"
+    if case["k"] == "hist":
+        return "hist:" + "".join("." if o["ctor"][0] == "ok" else "R" if o["ctor"][1] == "GrammarIsRecursive" else "E"
+                                 for o in obs["steps"])[:4]
     if obs["ctor"][0] != "ok":
         return "ctor:" + obs["ctor"][1]
     if any(r == ["err", "Hang"] for r in obs["res"]):
@@ -534,6 +876,22 @@ def shrink_candidates(case):
             half = len(idxs) // 2
             yield {"k": "sweep", "cls": case["cls"], "idx": idxs[:half]}
             yield {"k": "sweep", "cls": case["cls"], "idx": idxs[half:]}
+        return
+    if case["k"] == "hist":
+        steps = case["steps"]
+        # drop a call (the call behind it then relates to the object of the call before the dropped one; an
+        # 'again' call must keep the contents of its predecessor)
+        for i in range(len(steps)):
+            rest = steps[:i] + steps[i + 1:]
+            if len(rest) >= 1 and all(s2["mode"] != "again" or (j > 0 and rest[j - 1]["prods"] == s2["prods"])
+                                      for j, s2 in enumerate(rest)):
+                yield {"k": "hist", "terms": case["terms"], "steps": rest}
+        for i, st in enumerate(steps):
+            if len(st["inputs"]) > 1:
+                for j in range(len(st["inputs"])):
+                    st2 = dict(st)
+                    st2["inputs"] = [st["inputs"][j]]
+                    yield {"k": "hist", "terms": case["terms"], "steps": steps[:i] + [st2] + steps[i + 1:]}
         return
     g = case["g"]
     if len(case["inputs"]) > 1:
